@@ -52,6 +52,10 @@ var wants = []want{
 	{"pkg/server/share.go", "selcalls:DirectoryEntries", "bytesHaveSchemaLink", "share_links_dir_entries"},
 	{"pkg/server/share.go", "selcalls:StaticSetMembers", "bytesHaveSchemaLink", "share_links_set_members"},
 	{"pkg/server/share.go", "selcalls:StaticSetMergeSets", "bytesHaveSchemaLink", "share_links_merge_sets"},
+	// diskpacked: does walkPack look at the file's size (Stat) — the end-of-file check for a torn last record
+	{"pkg/blobserver/diskpacked/reindex.go", "selcalls:Stat", "walkPack", "dp_walk_checks_file_size"},
+	// diskpacked: does RemoveBlobs commit the index deletion before it touches the pack (first CommitBatch before first delete call)
+	{"pkg/blobserver/diskpacked/diskpacked.go", "callorder:CommitBatch<delete", "RemoveBlobs", "dp_remove_commits_index_first"},
 	// every handler type registered anywhere under pkg/ (first argument of blobserver.RegisterHandlerConstructor)
 	{"pkg", "registered:RegisterHandlerConstructor", "", "registered_handler_types"},
 }
@@ -398,7 +402,27 @@ func main() {
 				return true
 			})
 			fmt.Fprintf(&b, "Definition %s : bool := %v.\n", w.coqName, found)
-		case "selcalls:ByteParts", "selcalls:DirectoryEntries", "selcalls:StaticSetMembers", "selcalls:StaticSetMergeSets":
+		case "callorder:CommitBatch<delete":
+			fd, ok := fi.funcs[w.goName]
+			if !ok {
+				fail(fmt.Errorf("func not found"))
+			}
+			parts := strings.Split(strings.TrimPrefix(w.kind, "callorder:"), "<")
+			first := map[string]token.Pos{}
+			ast.Inspect(fd.Body, func(n ast.Node) bool {
+				if ce, ok := n.(*ast.CallExpr); ok {
+					if se, ok := ce.Fun.(*ast.SelectorExpr); ok {
+						if _, seen := first[se.Sel.Name]; !seen {
+							first[se.Sel.Name] = ce.Pos()
+						}
+					}
+				}
+				return true
+			})
+			a, okA := first[parts[0]]
+			bpos, okB := first[parts[1]]
+			fmt.Fprintf(&b, "Definition %s : bool := %v.\n", w.coqName, okA && okB && a < bpos)
+		case "selcalls:ByteParts", "selcalls:DirectoryEntries", "selcalls:StaticSetMembers", "selcalls:StaticSetMergeSets", "selcalls:Stat":
 			fd, ok := fi.funcs[w.goName]
 			if !ok {
 				fail(fmt.Errorf("func not found"))
